@@ -26,6 +26,10 @@ SINKS = {IT + "for_each": "for_each", IT + "any": "any", IT + "all": "all", IT +
          IT + "find_map": "find_map", IT + "position": "position", IT + "collect": "collect",
          "std::iter::Extend::extend": "extend"}
 CALLS = ("std::ops::FnMut::call_mut", "std::ops::Fn::call", "std::ops::FnOnce::call_once")
+# Option combinators with a visible function argument: rewritten into the match they abbreviate
+OPTS = {"std::option::Option::map": "map", "std::option::Option::and_then": "and_then", "std::option::Option::is_some_and": "is_some_and",
+        "std::option::Option::is_none_or": "is_none_or", "std::option::Option::filter": "filter", "std::option::Option::map_or": "map_or",
+        "std::option::Option::unwrap_or_else": "unwrap_or_else", "std::option::Option::map_or_else": "map_or_else", "std::option::Option::or_else": "or_else"}
 SEQ = ("std::vec::Vec", "std::collections::VecDeque")
 SETS = ("std::collections::HashSet", "std::collections::BTreeSet")
 MAPS = ("std::collections::HashMap", "std::collections::BTreeMap")
@@ -76,8 +80,9 @@ class _NoRewrite(Exception):
 
 
 class Desugarer:
-    def __init__(self, crate, body):
+    def __init__(self, crate, body, pipelines=True):
         self.crate = crate
+        self.pipelines = pipelines
         self.src = body
         self.j = copy.deepcopy(body.j)
         self.blocks = self.j["blocks"]
@@ -660,6 +665,84 @@ class Desugarer:
         self._index()
         return True
 
+    def rewrite_option(self, bi, kind):
+        """opt.map(f) == match opt { Some(x) => Some(f(x)), None => None } and its relatives"""
+        blk = self.blocks[bi]
+        t = blk["term"]
+        span = t.get("span") or {}
+        dest, target = t["dest"], t.get("t")
+        if target is None or not t["args"]:
+            return False
+        op = mir.op_place(t["args"][0])
+        if op is None:
+            return False
+        oty = op.get("ty") or {}
+        inner = (oty.get("targs") or [None])[0]
+        fi = {"map": 1, "and_then": 1, "is_some_and": 1, "is_none_or": 1, "filter": 1, "map_or": 2, "unwrap_or_else": 1, "map_or_else": 2, "or_else": 1}[kind]
+        if len(t["args"]) <= fi:
+            return False
+        f = self.resolve_fn(t["args"][fi])
+        g = self.resolve_fn(t["args"][1]) if kind == "map_or_else" else None
+        if f is None or (kind == "map_or_else" and g is None):
+            return False
+        nblocks, nlocals, saved = len(self.blocks), len(self.locals), self._unreach
+        try:
+            payload = {"move": P(op["l"], inner, list(op["p"]) + [{"dc": "Some"}, {"i": 0, "adt": "std::option::Option", "variant": "Some", "f": "0", "ty": (inner or {}).get("s", "?")}])}
+            dty = dest.get("ty") or {}
+
+            def some_of(o):
+                return {"k": "agg", "kind": "adt", "adt": "std::option::Option", "variant": "Some", "ops": [o], "fields": ["0"]}
+            none_rv = {"k": "agg", "kind": "adt", "adt": "std::option::Option", "variant": "None", "ops": [], "fields": []}
+            done = self.new_block([], {"k": "goto", "t": target})
+            if kind == "map":
+                rty = self.fn_out_ty(f)
+                y = self.new_local(rty)
+                wrap = self.new_block([self.assign(dest, some_of({"move": P(y, rty)}), span)], {"k": "goto", "t": done})
+                some_b = self.call_closure(f, [payload], P(y, rty), wrap, span)
+                none_b = self.new_block([self.assign(dest, none_rv, span)], {"k": "goto", "t": done})
+            elif kind in ("and_then",):
+                some_b = self.call_closure(f, [payload], dest, done, span)
+                none_b = self.new_block([self.assign(dest, none_rv, span)], {"k": "goto", "t": done})
+            elif kind in ("is_some_and", "is_none_or"):
+                some_b = self.call_closure(f, [payload], dest, done, span)
+                none_b = self.new_block([self.use(dest, const_bool(kind == "is_none_or"), span)], {"k": "goto", "t": done})
+            elif kind == "filter":
+                v = self.new_local(inner)
+                rty = self.fn_in_ty(f, 0, ref_ty(inner))
+                rr = self.new_local(rty)
+                o = self.new_local(BOOL)
+                keep = self.new_block([self.assign(dest, some_of({"move": P(v, inner)}), span)], {"k": "goto", "t": done})
+                none_b = self.new_block([self.assign(dest, none_rv, span)], {"k": "goto", "t": done})
+                sw = self.new_block([], {"k": "switch", "op": {"move": P(o, BOOL)}, "targets": [["0", none_b]], "otherwise": keep})
+                e = self.call_closure(f, [{"move": P(rr, rty)}], P(o, BOOL), sw, span)
+                some_b = self.new_block([self.use(P(v, inner), payload, span), self.assign(P(rr, rty), {"k": "ref", "mut": False, "place": P(v, inner)}, span)], {"k": "goto", "t": e})
+            elif kind == "map_or":
+                some_b = self.call_closure(f, [payload], dest, done, span)
+                none_b = self.new_block([self.use(dest, t["args"][1], span)], {"k": "goto", "t": done})
+            elif kind == "map_or_else":
+                some_b = self.call_closure(f, [payload], dest, done, span)
+                none_b = self.call_closure(g, [], dest, done, span)
+            elif kind == "unwrap_or_else":
+                some_b = self.new_block([self.use(dest, payload, span)], {"k": "goto", "t": done})
+                none_b = self.call_closure(f, [], dest, done, span)
+            elif kind == "or_else":
+                some_b = self.new_block([self.use(dest, t["args"][0], span)], {"k": "goto", "t": done})
+                none_b = self.call_closure(f, [], dest, done, span)
+            else:
+                raise _NoRewrite()
+            dsc = self.new_local(ISIZE)
+            entry = self.new_block([self.assign(P(dsc, ISIZE), {"k": "discr", "place": P(op["l"], oty, op["p"]), "enum": "std::option::Option", "variants": {"0": "None", "1": "Some"}}, span)],
+                                   {"k": "switch", "op": {"move": P(dsc, ISIZE)}, "targets": [["0", none_b], ["1", some_b]], "otherwise": self.unreachable()})
+        except _NoRewrite:
+            del self.blocks[nblocks:]
+            del self.locals[nlocals:]
+            self._unreach = saved
+            return False
+        blk["term"] = {"k": "goto", "t": entry, "desugared": t["callee"].get("path")}
+        self.changed = True
+        self._index()
+        return True
+
     def thread_jumps(self, first_new):
         """a synthetic block that ends by building a known enum variant and then reaches, through plain moves, a
         switch on that value's discriminant jumps to the selected target directly (tail duplication)"""
@@ -729,30 +812,34 @@ class Desugarer:
                 if t["k"] != "call" or blk["cleanup"] or t["callee"].get("synthetic"):
                     continue
                 nm = mir._norm(t["callee"].get("path", ""))
-                if nm in SINKS:
+                if nm in SINKS and self.pipelines:
                     progress |= self.rewrite_sink(bi, SINKS[nm])
-                elif nm == IT + "next":
+                elif nm == IT + "next" and self.pipelines:
                     progress |= self.rewrite_next(bi)
                 elif nm in CALLS:
                     progress |= self.rewrite_call(bi)
+                elif nm in OPTS:
+                    progress |= self.rewrite_option(bi, OPTS[nm])
             if not progress:
                 break
         return self.changed
 
 
-def desugar(crate, body):
-    """Body with iterator pipelines and visible closure calls made explicit (the same Body if there are none)"""
-    cached = getattr(body, "_desugared", None)
+def desugar(crate, body, pipelines=True):
+    """Body with iterator pipelines and visible closure calls made explicit (the same Body if there are none);
+    pipelines=False rewrites only Option combinators and closure calls and leaves iterator chains as calls"""
+    attr = "_desugared" if pipelines else "_desugared_calls"
+    cached = getattr(body, attr, None)
     if cached is not None:
         return cached
-    d = Desugarer(crate, body)
+    d = Desugarer(crate, body, pipelines)
     if not d.run():
-        body._desugared = body
+        setattr(body, attr, body)
         return body
     d.j["inlined_owner"] = d.owner
     nb = mir.Body(d.j, body.crate)
     nb.inlined = True
     nb.desugared = True
-    nb._desugared = nb
-    body._desugared = nb
+    setattr(nb, attr, nb)
+    setattr(body, attr, nb)
     return nb
